@@ -17,6 +17,7 @@ mod codec18;
 mod codec18_der;
 mod pdus;
 mod csspgate;
+mod nla;
 
 use std::io::{self, BufRead, Write};
 
@@ -51,6 +52,11 @@ fn dispatch(op: &str, args: &[&str]) -> String {
         "core" => pdus::op_core(args),
         "pdus" => pdus::op_pdus(args),
         "csspgate" => csspgate::op_cssp(args),
+        "tsreq" => nla::op_tsreq(args),
+        "tsval" => nla::op_tsval(args),
+        "chal" => nla::op_chal(args),
+        "unwrap" => nla::op_unwrap(args),
+        "csspnla" => nla::op_cssp(args),
         _ => format!("unknown-op:{}", op),
     }
 }
